@@ -64,6 +64,14 @@ def has_stable_exit(impl_line):
 
 # ---- matcher -------------------------------------------------------------------------------------
 
+def exemplar(fid, prop):
+    """the exemplar of finding `fid` kept for property `prop` in KNOWN_FINDINGS.json (key 'exemplars': {prop: {...}}), or None"""
+    for f in load():
+        if f['id'] == fid:
+            return (f.get('exemplars') or {}).get(prop)
+    return None
+
+
 def coarse_guarded(o):
     """guarded arithmetic with guard digits (a non-zero comparison tolerance): the configurations in which builtin min()/max() over Guarded's
     non-transitive comparison can pick a reference that is not the extreme (finding G2)"""
